@@ -54,6 +54,7 @@ import (
 	"os"
 	"sort"
 	"strings"
+	"sync"
 	"time"
 
 	"verif/refcodec"
@@ -189,7 +190,12 @@ var (
 	netNT       int
 )
 
+// ntMu guards ntPaid, which the lanes of runBatch read and write at the same time
+var ntMu sync.Mutex
+
 func cpuBudget() time.Duration {
+	ntMu.Lock()
+	defer ntMu.Unlock()
 	if ntPaid >= ntFullPrice {
 		return cpuAbandon
 	}
@@ -270,13 +276,34 @@ func truncation(id string, e *enc) {
 	}
 	masks := make([]int, len(cuts))
 	for j := range masks {
-		masks[j] = extraModes(len(e.B), j+e.Index)
+		masks[j] = extraModes(e, len(e.B), j+e.Index)
 	}
-	out, err := runBatch(&srv, c.Out, []req{{dec: e.Dec, mode: modeTrunc, b: e.B, cuts: cuts, cutMasks: masks, maxDeaths: 3}})
-	if err != nil {
-		c.Inconclusive(id, "decode server could not be started: "+err.Error())
-		return
+	// long prefix lists are cut into contiguous parts, one per lane
+	parts := 1
+	if len(cuts) >= 256 {
+		parts = lanes
 	}
+	partOut := make([][]res, parts)
+	partErr := make([]error, parts)
+	bounds := func(g int) (int, int) { return g * len(cuts) / parts, (g + 1) * len(cuts) / parts }
+	inLanes(parts, func(g int) {
+		lo, hi := bounds(g)
+		o, err := runBatch(&srvs[g], c.Out, []req{{dec: e.Dec, mode: modeTrunc, b: e.B, cuts: cuts[lo:hi], cutMasks: masks[lo:hi], maxDeaths: 3}})
+		if err != nil {
+			partErr[g] = err
+			return
+		}
+		partOut[g] = o[0]
+	})
+	var allOut []res
+	for g := 0; g < parts; g++ {
+		if partErr[g] != nil {
+			c.Inconclusive(id, "decode server could not be started: "+partErr[g].Error())
+			return
+		}
+		allOut = append(allOut, partOut[g]...)
+	}
+	out := [][]res{allOut}
 	var panicked, kend, done int64
 	var byMode, byModePanicked [nIModes]int64
 	answered := make([]int, 0, len(cuts))
@@ -495,26 +522,80 @@ func cutsIn(ks []int, lo, hi int) int {
 	return sort.SearchInts(ks, hi) - sort.SearchInts(ks, lo)
 }
 
-// extraModes: the input modes a decode is repeated in, besides the exactly sized copy. Inputs
-// of up to allModesMax bytes: all of them. Longer inputs (their decodes are the expensive
-// ones): one, taken in rotation — consecutive prefixes / mutants of one encoding get (b), (c),
-// (d), (b), … so that every field of the encoding meets every mode.
-const allModesMax = 512
+// extraModes: the input modes a decode is repeated in, besides the exactly sized copy.
+//   - encodings (prefix list) and mutants of up to allModesMax bytes: all three, for every
+//     prefix / mutant (plain build; the
+//     checkptr build, where the reflection walk of the fingerprint is several times as
+//     expensive, treats them like the longer ones);
+//   - longer inputs: one, taken in rotation — consecutive prefixes / mutants of one encoding
+//     get (b), (c), (d), (b), … so that every field of the encoding meets every mode;
+//   - encodings whose field map has more than heavyFields entries (thousands of elements: one
+//     decode costs a millisecond, and there are tens of thousands of prefixes and mutants of
+//     it): one in rotation for every fourth prefix / mutant.
+//
+// seq numbers the prefixes / mutants of one encoding, offset by the case index.
+const (
+	allModesMax = 512
+	heavyFields = 200
+)
 
-func extraModes(inputLen, seq int) int {
-	if inputLen <= allModesMax {
+func extraModes(e *enc, inputLen, seq int) int {
+	switch {
+	case inputLen <= allModesMax && c.Flavour != "checkptr":
 		return imAll
+	case len(e.Fields) <= heavyFields:
+		return 1 << (1 + seq%3)
+	case seq%4 == 0:
+		return 1 << (1 + seq/4%3)
 	}
-	return 1 << (1 + seq%3)
+	return 0
 }
 
-// tailFor: bytes laid out behind a complete input. A hostile length or count of two or more
-// bytes gets room for every 16-bit value and 65536; everything else a short tail.
-func tailFor(where string) int {
-	if strings.Contains(where, "len/") || strings.Contains(where, "count/") {
+// tailFor: how many bytes are laid out behind a hostile input. What matters is whether a
+// length (or count × element size) the mutant announces fits into the capacity: announcements
+// up to a few KiB fit into the short tail, those beyond 65536 + 4 KiB into neither, so the
+// long tail (room for every 16-bit length and for 65536) is laid out exactly when the bytes
+// the mutant puts into a length / count field, read as a big-endian number with or without
+// their first byte (blob prefixes and decimals start with a class byte), fall in between.
+func tailFor(e *enc, m *mutant) int {
+	if m.full != nil {
+		return tailLong
+	}
+	if !strings.Contains(m.where, "len/") && !strings.Contains(m.where, "count/") {
+		return tailShort
+	}
+	fb := m.ins
+	if strings.HasPrefix(m.where, "byte-in-") {
+		// the whole field after the overwrite of one of its bytes
+		for _, f := range e.Fields {
+			if f.Width > 1 && f.Width <= 9 && f.Off <= m.off && m.off < f.Off+f.Width && f.Off+f.Width <= len(e.B) && (f.Kind == kLen || f.Kind == kCount) {
+				fb = append([]byte(nil), e.B[f.Off:f.Off+f.Width]...)
+				fb[m.off-f.Off] = m.ins[0]
+				if announces(fb) {
+					return tailLong
+				}
+			}
+		}
+		return tailShort
+	}
+	if announces(fb) {
 		return tailLong
 	}
 	return tailShort
+}
+
+func announces(fb []byte) bool {
+	in := func(b []byte) bool {
+		if len(b) == 0 || len(b) > 8 {
+			return false
+		}
+		var v uint64
+		for _, x := range b {
+			v = v<<8 | uint64(x)
+		}
+		return v > 128 && v <= tailLong
+	}
+	return in(fb) || (len(fb) > 1 && in(fb[1:]))
 }
 
 // modeVerdicts judges the extra input modes of one complete input (hostile mutant or valid
@@ -627,7 +708,7 @@ func netPass(id string, e *enc, r *vlib.Rand) {
 		c.Count("net_scenarios_skipped_after_nonterminating", int64(len(scen)))
 		return
 	}
-	out, err := runBatch(&srv, c.Out, []req{{dec: e.Dec, mode: modeNet, b: e.B, scen: scen, maxDeaths: 2}})
+	out, err := runBatch(&srvs[0], c.Out, []req{{dec: e.Dec, mode: modeNet, b: e.B, scen: scen, maxDeaths: 2}})
 	if err != nil {
 		c.Inconclusive(id, "decode server could not be started: "+err.Error())
 		return
@@ -1017,7 +1098,27 @@ func corruptions(e *enc, r *vlib.Rand) []mutant {
 	return out
 }
 
-var srv *server
+// Decode servers of this worker process. Admission and connection scenarios use lane 0; the
+// prefix list and the mutant list of one encoding are spread over all lanes (parallel decode
+// servers), the results are judged afterwards in their order — a shard that drew one of the
+// rare encodings with thousands of elements would otherwise decide the wall time of the run.
+const lanes = 4
+
+var srvs [lanes]*server
+
+// inLanes runs the jobs on the decode servers of lanes 0, 1, … at the same time
+func inLanes(n int, job func(g int)) {
+	if n == 1 {
+		job(0)
+		return
+	}
+	var wg sync.WaitGroup
+	for g := 0; g < n; g++ {
+		wg.Add(1)
+		go func(g int) { defer wg.Done(); job(g) }(g)
+	}
+	wg.Wait()
+}
 
 // (decoder, field) pairs that were fatal or allocated beyond the bound, with their count
 var costly = map[string]int{}
@@ -1035,12 +1136,31 @@ func hostile(id string, e *enc, r *vlib.Rand) {
 	var panicked, returned, done, extra int64
 	seq := 0
 	const chunk = 24
-	for lo := 0; lo < len(muts); lo += chunk {
-		hi := lo + chunk
-		if hi > len(muts) {
-			hi = len(muts)
+	// waves of up to `lanes` chunks: the skip rules are applied when a chunk is prepared, the
+	// chunks of a wave are decoded at the same time, their results judged in order
+	for lo := 0; lo < len(muts); {
+		var jobs []*hostileJob
+		for g := 0; g < lanes && lo < len(muts); g++ {
+			hi := lo + chunk
+			if hi > len(muts) {
+				hi = len(muts)
+			}
+			if j := hostilePrep(e, d, muts[lo:hi], &seq); j != nil {
+				jobs = append(jobs, j)
+			}
+			lo = hi
 		}
-		hostileChunk(id, e, d, muts[lo:hi], &panicked, &returned, &done, &extra, &seq)
+		if len(jobs) == 0 {
+			continue
+		}
+		inLanes(len(jobs), func(g int) { jobs[g].results, jobs[g].err = runBatch(&srvs[g], c.Out, jobs[g].reqs) })
+		for _, j := range jobs {
+			if j.err != nil {
+				c.Inconclusive(id, "decode server could not be started: "+j.err.Error())
+				continue
+			}
+			hostileJudge(id, e, d, j, &panicked, &returned, &done, &extra)
+		}
 	}
 	c.Count("corruptions", done)
 	c.Count("corr_panicked", panicked)
@@ -1050,7 +1170,15 @@ func hostile(id string, e *enc, r *vlib.Rand) {
 	c.Eval(done + extra)
 }
 
-func hostileChunk(id string, e *enc, d *decoder, muts []mutant, pPanicked, pReturned, pDone, pExtra *int64, pSeq *int) {
+type hostileJob struct {
+	muts    []mutant
+	reqs    []req
+	idx     []int
+	results [][]res
+	err     error
+}
+
+func hostilePrep(e *enc, d *decoder, muts []mutant, pSeq *int) *hostileJob {
 	var reqs []req
 	var idx []int
 	for i, m := range muts {
@@ -1067,18 +1195,18 @@ func hostileChunk(id string, e *enc, d *decoder, muts []mutant, pPanicked, pRetu
 			continue
 		}
 		mb := m.bytes(e.B)
-		reqs = append(reqs, req{dec: e.Dec, mode: modeHostile, b: mb, imask: extraModes(len(mb), *pSeq+e.Index), tail: tailFor(m.where)})
+		reqs = append(reqs, req{dec: e.Dec, mode: modeHostile, b: mb, imask: extraModes(e, len(mb), *pSeq+e.Index), tail: tailFor(e, &muts[i])})
 		*pSeq++
 		idx = append(idx, i)
 	}
 	if len(reqs) == 0 {
-		return
+		return nil
 	}
-	results, err := runBatch(&srv, c.Out, reqs)
-	if err != nil {
-		c.Inconclusive(id, "decode server could not be started: "+err.Error())
-		return
-	}
+	return &hostileJob{muts: muts, reqs: reqs, idx: idx}
+}
+
+func hostileJudge(id string, e *enc, d *decoder, job *hostileJob, pPanicked, pReturned, pDone, pExtra *int64) {
+	muts, reqs, idx, results := job.muts, job.reqs, job.idx, job.results
 	for j := range results {
 		rs := results[j][0]
 		if rs.died == nil || rs.died.Kind == "fatal" || rs.died.Kind == "nonterminating" {
@@ -1154,7 +1282,7 @@ func admit(id string, e *enc) bool {
 		c.Count("encodings_skipped_decoder_nonterminating", 1)
 		return false
 	}
-	out, err := runBatch(&srv, c.Out, []req{{dec: e.Dec, mode: modeAdmit, b: e.B, imask: imAll, tail: tailLong}})
+	out, err := runBatch(&srvs[0], c.Out, []req{{dec: e.Dec, mode: modeAdmit, b: e.B, imask: imAll, tail: tailLong}})
 	if err != nil {
 		c.Inconclusive(id, "decode server could not be started: "+err.Error())
 		return false
@@ -1254,6 +1382,36 @@ func main() {
 			}
 		}
 		c.Count("field_map_entries_targeted", int64(nt))
+		spans := blobSpans(e)
+		var nb [3]int64
+		for _, bs := range spans {
+			switch bs.class {
+			case "blob8":
+				nb[0]++
+			case "blob16":
+				nb[1]++
+			default:
+				nb[2]++
+			}
+		}
+		c.Count("corpus_blobs_len_1_byte", nb[0])
+		c.Count("corpus_blobs_len_255_2_bytes", nb[1])
+		c.Count("corpus_blobs_len_254_4_bytes", nb[2])
+		if nb[2] > 0 {
+			c.Count("encodings_with_blob_above_65535", 1)
+			c.SetAdd("decoders_with_blob_above_65535", d.Name)
+		}
+		if e.Big && !sampledFam[f.Name+"/"+d.Name] && c.WantSample() {
+			sampledFam[f.Name+"/"+d.Name] = true
+			var sp []map[string]int
+			for _, bs := range spans {
+				if bs.class == "blob32" {
+					sp = append(sp, map[string]int{"payload_from": bs.lo, "payload_to": bs.hi})
+				}
+			}
+			c.Sample(map[string]interface{}{"case": id, "family": f.Name, "decoder": d.Name, "encoding_len": len(e.B),
+				"blobs_with_4_byte_length": sp, "strict_prefixes_decoded": len(cutOffsets(e)), "head_hex": hexCap(e.B, 48)})
+		}
 
 		c.Journal(id, d.Name+":fatal@truncation")
 		t0 := time.Now()
@@ -1274,17 +1432,40 @@ func main() {
 				"field_map": e.Fields, "strict_prefixes_decoded": len(e.B)})
 		}
 	})
-	if srv != nil {
-		srv.stop()
+	for g := range srvs {
+		if srvs[g] != nil {
+			srvs[g].stop()
+		}
 	}
 	c.Exhaustive("every strict prefix of every corpus encoding ≤ 4 KiB")
 	c.Exhaustive("every listed hostile value at every length/count/tag/version/decimal-class entry of the field map (field maps with more than 240 such entries: first 80, last 80 and 80 drawn)")
 	c.Exhaustive("connection mode: every strict prefix of every corpus encoding ≤ 16 bytes, each with one drawn fragmentation and ending")
 	c.Exhaustive("six hostile byte values at every byte position of every corpus encoding ≤ 256 bytes")
+	if c.Flavour != "checkptr" {
+		c.Exhaustive("input modes: every strict prefix and every hostile mutant of at most 512 bytes is decoded in all four input modes (exact copy, re-sliced with the rest of the message behind it, re-sliced with stale bytes behind it, sub-slice at an odd offset)")
+	}
 	per := int64(n / c.NShards)
 	c.Floor("encodings", per/10, c.Counter("encodings"))
 	c.Floor("truncation_points", per*10, c.Counter("truncation_points"))
 	c.Floor("corruptions", per*30, c.Counter("corruptions"))
 	c.Floor("net_scenarios", per, c.Counter("net_scenarios"))
+	// per input mode: prefixes, mutants and valid encodings decoded in it, results compared
+	for im := 1; im < nIModes; im++ {
+		c.Floor("trunc_decodes_"+imShort[im], per*10, c.Counter("trunc_decodes_"+imShort[im]))
+		c.Floor("hostile_decodes_"+imShort[im], per*20, c.Counter("hostile_decodes_"+imShort[im]))
+		c.Floor("valid_decodes_"+imShort[im], per/10, c.Counter("valid_decodes_"+imShort[im]))
+	}
+	c.Floor("results_compared_with_exact_copy", per*30, c.Counter("results_compared_with_exact_copy"))
+	// per class of the blob length prefix and input mode: prefixes that end inside such a blob
+	for im := 0; im < nIModes; im++ {
+		f8, f16, f32 := per, per, per*2
+		if im == imExact {
+			f8, f16, f32 = per*4, per*4, per*8
+		}
+		c.Floor("trunc_inside_blob8_"+imShort[im], f8, c.Counter("trunc_inside_blob8_"+imShort[im]))
+		c.Floor("trunc_inside_blob16_"+imShort[im], f16, c.Counter("trunc_inside_blob16_"+imShort[im]))
+		c.Floor("trunc_inside_blob32_"+imShort[im], f32, c.Counter("trunc_inside_blob32_"+imShort[im]))
+	}
+	c.Floor("corruptions_of_blob_len32_fields", per/10, c.Counter("corruptions_of_blob_len32_fields"))
 	c.Finish()
 }
